@@ -37,7 +37,9 @@ P = {'id': 'C07',
               'secure_free_accepted',
               'secure_active_exact',
               'secure_double_free_detected',
-              'mempool_inv'],
+              'mempool_inv',
+              'mmap_inv',
+              'mmap_reissue_fits'],
  'trusted': ['modelled (M+S): src/memory/lockfree_pool.rs (allocate, deallocate, allocate_from_fast_bin, deallocate_to_fast_bin, allocate_new_block, '
              'size_to_bin_index, align_size, ptr_to_offset; FAST_BIN_SIZES is read from the source by the harness and compared with the model table in every '
              'Coq-evaluated case), sequential semantics, free lists as stacks of offsets; src/memory/bump.rs (alloc_bytes, BumpScope drop) with the buffer '
